@@ -61,9 +61,10 @@ def run_one(args):
                     if not k and p.state == chunkParserStates.COMPLETE:
                         k = i + 1
                     start = e
-                view = (p.state == chunkParserStates.COMPLETE, '', None, None, None, None, None, None, None, (), bytes(p.body), rest)
+                view = (p.state == chunkParserStates.COMPLETE, '', None, None, None, None, None, None, None, (), bytes(p.body), rest, b'')
             else:
-                p = HttpParser(httpParserTypes.REQUEST_PARSER if kind == 'req' else httpParserTypes.RESPONSE_PARSER)
+                p = HttpParser(httpParserTypes.REQUEST_PARSER if kind == 'req' else httpParserTypes.RESPONSE_PARSER,
+                               enable_proxy_protocol=1 if desc.get('proxy_line') else 0)
                 start = 0
                 for i, e in enumerate(ends):
                     p.parse(memoryview(raw[start:e]))
@@ -71,25 +72,40 @@ def run_one(args):
                         k = i + 1
                     start = e
                 hdrs = tuple(sorted((v[0], v[1]) for v in (p.headers or {}).values()))
+                pp = b''
+                if p.protocol is not None:      # what the PROXY protocol line was understood as (compared across segmentations)
+                    pp = repr((p.protocol.version, p.protocol.family, p.protocol.source, p.protocol.destination)).encode()
                 view = (bool(p.is_complete), '', p.method, p.host, p.port, p.path, p.version, p.code, p.reason, hdrs,
-                        p.body, bytes(p.buffer) if p.buffer is not None else b'')
+                        p.body, bytes(p.buffer) if p.buffer is not None else b'', pp)
         except Exception as e:     # noqa
-            view = (False, type(e).__name__, None, None, None, None, None, None, None, (), None, b'')
+            view = (False, type(e).__name__, None, None, None, None, None, None, None, (), None, b'', b'')
             k = 0
         if view not in index:
             index[view] = len(views) + 1
-            c, x, method, host, port, path, version, code, reason, hdrs, body, rest_ = view
+            c, x, method, host, port, path, version, code, reason, hdrs, body, rest_, pp_ = view
             views.append({'complete': c, 'exc': x, 'method': b2l(method), 'host': b2l(host), 'port': port if isinstance(port, int) else -1,
                           'path': b2l(path), 'version': b2l(version), 'code': b2l(code), 'reason': b2l(reason),
-                          'hdrs': [[b2l(a), b2l(b)] for a, b in hdrs], 'body': b2l(body), 'rest': b2l(rest_)})
+                          'hdrs': [[b2l(a), b2l(b)] for a, b in hdrs], 'body': b2l(body), 'rest': b2l(rest_), 'pp': b2l(pp_)})
         segs.append([k, index[view]] + ends)
-    return {'id': cid, 'kind': kind, 'bytes': list(raw), 'views': views, 'segs': segs}, desc
+    return {'id': cid, 'kind': kind, 'bytes': list(raw), 'skip': len(desc.get('proxy_line') or b''), 'views': views, 'segs': segs}, desc
 
 
 def run(chk):
     quick = chk.tier == 'quick'
     seed = chk.seed
     msgs = httpgen.corpus(seed * 7 + 1, 1 if quick else 6)
+    # the same parser behind --enable-proxy-protocol: a PROXY protocol v1 line ahead of the request
+    prnd = random.Random(seed * 7 + 2)
+    lines = [b'PROXY TCP4 192.168.0.1 192.168.0.11 56324 443\r\n', b'PROXY TCP6 2001:db8::1 2001:db8::2 1 65535\r\n', b'PROXY UNKNOWN\r\n',
+             b'PROXY TCP4 255.255.255.255 255.255.255.255 65535 65535\r\n']
+    extra = []
+    for raw, desc in msgs:
+        if desc['kind'] == 'req' and prnd.random() < (0.5 if quick else 0.7) and len(raw) < 400:
+            ln = prnd.choice(lines)
+            d2 = dict(desc)
+            d2['proxy_line'] = ln
+            extra.append((ln + raw, d2))
+    msgs = msgs + extra
     full3 = 60 if quick else 90
     nrand = 20 if quick else 60
     jobs = [(raw, desc, i + 1, seed * 1000 + i, full3, nrand) for i, (raw, desc) in enumerate(msgs)]
@@ -106,7 +122,7 @@ def run(chk):
     chk.traces(nseg)
     classes = {}
     for d in descs.values():
-        key = (d['kind'], d['framing'], bool(d.get('trailing')))
+        key = (d['kind'] + ('+PROXY line' if d.get('proxy_line') else ''), d['framing'], bool(d.get('trailing')))
         classes[key] = classes.get(key, 0) + 1
     chk.cov['messages'] = len(cases)
     chk.cov['segmentations_executed'] = nseg
@@ -126,6 +142,8 @@ def run(chk):
             pieces = [raw[a:b].decode('latin1') for a, b in zip([0] + ends[:-1], ends)]
         d = descs[cid]
         sig = {'clause': clause.split(' (')[0], 'kind': d['kind'], 'framing': d['framing']}
+        if d.get('proxy_line'):
+            sig['proxy_protocol'] = True
         chk.violation(sig, '%s %s message of %d bytes: %s' % (d['kind'], d['framing'], len(raw), clause),
                       {'case': d, 'message': raw.decode('latin1'), 'pieces': pieces, 'first_complete_piece': seg[0] if seg else None})
     for c in cases[:3]:
